@@ -296,15 +296,17 @@ type CaseC10 struct {
 	MaxExhaustive int     `json:"max_exhaustive"`
 	Sample        int     `json:"sample"`
 	LongLen       int     `json:"long_len"`
-	LongWhere     int     `json:"long_where"` // index of the block before which the long line goes
-	LongForm      string  `json:"long_form"`  // "comment", "note"
+	LongWhere     int     `json:"long_where"`    // index of the block before which the long line goes
+	LongForm      string  `json:"long_form"`     // "comment", "note"
+	Odd           string  `json:"odd,omitempty"` // kind "sentinel": an unusual but legal line put in the middle of the file
 	Only          int     `json:"only"`
 }
 
 func genC10(thorough bool) func(t *rapid.T) Case {
 	return func(t *rapid.T) Case {
 		c := &CaseC10{Only: -1}
-		c.Kind = rapid.SampledFrom([]string{"offsets", "offsets", "offsets", "longline", "dir", "openfail"}).Draw(t, "kind")
+		c.Kind = rapid.SampledFrom([]string{"offsets", "offsets", "offsets", "longline", "dir", "openfail", "sentinel"}).Draw(t, "kind")
+		c.Odd = rapid.SampledFrom([]string{"", "dots-heading", "long-comment", "long-note", "blank-runs", "tab-comment"}).Draw(t, "odd_line")
 		c.Target = rapid.SampledFrom([]string{"log", "db"}).Draw(t, "target")
 		names := shapeNames(func(s Shape) bool {
 			if c.Target == "log" {
@@ -392,6 +394,52 @@ func (c *CaseC10) Eval(ob *Obs) []Finding {
 		if !r.Failed {
 			out = append(out, Finding{"C10 unreadable-" + c.Kind + "-exit0" + sigTail,
 				fmt.Sprintf("%s could not be opened/read (%s %s) and the command reported success with %d bytes of output", path, c.Kind, c.Fault, len(r.Stdout))})
+		}
+		return out
+	case "sentinel":
+		// "whenever a command succeeds, every heading and entry of the file has been taken into account":
+		// a last block that only this file has must show up in the export, whatever legal oddity precedes it
+		blocks := c.Base.Log
+		ly := c.Base.LogLayout
+		if c.Target == "db" {
+			blocks, ly = c.Base.Book, c.Base.BookLayout
+		}
+		where := c.LongWhere
+		if where > len(blocks) {
+			where = len(blocks)
+		}
+		odd := ""
+		switch c.Odd {
+		case "dots-heading":
+			if c.Target == "db" { // a recipe may be called "..."; in a log it would not be a date
+				odd = "..." + ly.EOL + ly.Indent + "kcal" + ly.Sep + "1" + ly.EOL
+			}
+		case "long-comment":
+			odd = "# " + strings.Repeat("c", 9000) + ly.EOL
+		case "long-note":
+			if where > 0 {
+				odd = ly.Indent + "# note: " + strings.Repeat("n", 5000) + ly.EOL
+			}
+		case "blank-runs":
+			odd = strings.Repeat(ly.EOL, 40) + "   " + ly.EOL + "\t" + ly.EOL
+		case "tab-comment":
+			odd = "#\t" + ly.EOL + "#" + ly.EOL
+		}
+		sentinel := "2021/02/27:" + ly.EOL + ly.Indent + "SENTINEL" + ly.Sep + "7" + ly.EOL
+		args, want := []string{"csv", "log"}, "2021-02-27,SENTINEL,7.000"
+		if c.Target == "db" {
+			sentinel = "zz/sentinel:" + ly.EOL + ly.Indent + "kcal" + ly.Sep + "7" + ly.EOL
+			args, want = []string{"csv", "database"}, "zz/sentinel,kcal,7.00"
+		}
+		sw := cloneWorld(w)
+		sw.Files[fi].Data = render(blocks[:where], ly) + odd + render(blocks[where:], ly) + sentinel
+		sw.Argv = append([]string{"hranoprovod-cli"}, args...)
+		r := ob.run(sw)
+		ob.nontrivial(hashOf(c.Base) + "sentinel" + c.Odd + fmt.Sprint(where))
+		ob.probe("sentinel_" + c.Odd)
+		if r.Panic == "" && !r.Failed && !strings.Contains(r.Stdout, want) {
+			out = append(out, Finding{"C10 success-without-reading-everything file=" + c.Target + " odd=" + c.Odd,
+				fmt.Sprintf("%v succeeded but its output lacks the last block of the file (%q); the file has an unusual but legal line (%s) before block %d", args, want, c.Odd, where)})
 		}
 		return out
 	case "longline":
